@@ -204,13 +204,17 @@ func (t *Input) reflectSet(rv reflect.Value, v interface{}) (err error) {
 		case reflect.Int, reflect.Int8, reflect.Int16, reflect.Int32, reflect.Int64:
 			switch vt.Kind() {
 			case reflect.Int, reflect.Int8, reflect.Int16, reflect.Int32, reflect.Int64:
-				rv.SetInt(vv.Int())
-				return
+				// A number the field can not hold is an error and not
+				// another number.
+				if i := vv.Int(); !rv.OverflowInt(i) {
+					rv.SetInt(i)
+					return
+				}
 			}
 		case reflect.Uint, reflect.Uint8, reflect.Uint16, reflect.Uint32, reflect.Uint64:
 			switch vt.Kind() {
 			case reflect.Int, reflect.Int8, reflect.Int16, reflect.Int32, reflect.Int64:
-				if i := vv.Int(); 0 <= i {
+				if i := vv.Int(); 0 <= i && !rv.OverflowUint(uint64(i)) {
 					rv.SetUint(uint64(i))
 					return
 				}
@@ -218,8 +222,10 @@ func (t *Input) reflectSet(rv reflect.Value, v interface{}) (err error) {
 		case reflect.Float32, reflect.Float64:
 			switch vt.Kind() {
 			case reflect.Float32, reflect.Float64:
-				rv.SetFloat(vv.Float())
-				return
+				if f := vv.Float(); !rv.OverflowFloat(f) {
+					rv.SetFloat(f)
+					return
+				}
 			case reflect.Int, reflect.Int8, reflect.Int16, reflect.Int32, reflect.Int64:
 				rv.SetFloat(float64(vv.Int()))
 				return
